@@ -46,6 +46,20 @@
    * C05_failed_read_consumed: what is consumed when a raw read FAILS inside
      an accepted chunk (the discard runs on behind the failure if the backend
      was still reading).
+   * C05_cut_resume / C05_cut_again / C05_incomplete_chunk_closes /
+     C05_incomplete_refused_closes / C05_refusal_short / C05_closed_loop_stops
+     (finding F30, repaired): a chunk - accepted or refused - whose declared
+     octets could NOT all be read closes the connection after its reply: the
+     socket is shut, the session logged out, and the command loop run on the
+     resulting state with ANY remaining input does nothing but the deferred
+     Close, so the rest of the chunk, should the peer send it later, is never
+     executed as commands.  One failing read inside an ACCEPTED chunk is
+     survived when the octets behind it complete the chunk (the discard skips
+     them and commands resume right behind: C05_cut_resume); a failure that
+     repeats - end of the stream, or an expired read deadline, which makes
+     every read fail until the command loop arms it again - is not
+     (C05_cut_again, C05_incomplete_chunk_closes).  A write error on the pipe
+     (backend gone) with the chunk read completely does not close (C05_resume).
 
    BOUNDARY (known finding F6).  All of this is about the state AFTER the BDAT
    command line has been read.  Payload octets that were fetched into the
@@ -63,7 +77,7 @@
    unreachable (ConnProofs.Inv, BdatProofs.Inv_session); the theorems that
    need a session say [c_from c = true -> c_session c = true]. *)
 From Smtp Require Import Bytes GoStrings Transport DataReader Parse Reply Lmtp Conn
-  TransportProofs ConnProofs BdatProofs.
+  TransportProofs ConnProofs BdatProofs CloseProofs.
 Local Open Scope N_scope.
 
 (* ---- the transport: framing by octet count ---- *)
@@ -99,11 +113,20 @@ Theorem C05_discard_resume (cfg : config) (c : conn) (n : N) (payload rest : byt
   t_closed (c_t c) = false ->
   tstream (c_t c) = payload ++ rest -> blen payload = n ->
   exists t',
-    discard_chunk cfg c n = upd_t c t' /\
+    discard_chunk cfg c n = (upd_t c t', []) /\
     tstream t' = rest /\ t_limit t' = cf_max_line cfg /\ t_closed t' = false /\
     tterm t' = tterm (c_t c).
 Proof. exact (discard_chunk_resume cfg c n payload rest). Qed.
 Print Assumptions C05_discard_resume.
+
+(* ... and when they are not all there: Close *)
+Theorem C05_discard_short (cfg : config) (c : conn) (n : N) :
+  t_closed (c_t c) = false -> blen (tstream (c_t c)) < n ->
+  exists t',
+    discard_chunk cfg c n = do_close (upd_t c t') /\
+    t_buf t' = [] /\ t_raw t' = raws_after (t_raw (c_t c)) /\ t_limit t' = cf_max_line cfg.
+Proof. exact (discard_chunk_short cfg c n). Qed.
+Print Assumptions C05_discard_short.
 
 (* ---- the next command is parsed from the octets behind the declared size ---- *)
 
@@ -127,11 +150,15 @@ Theorem C05_syntax_unchanged cfg c arg :
 Proof. exact (bdat_syntax_unchanged cfg c arg). Qed.
 Print Assumptions C05_syntax_unchanged.
 
+(* the refusals: the reply, then what discardChunk does - [discard_c] is the
+   state it leaves, [discard_ev] the events it adds: none when the declared
+   octets are there (C05_refusal_complete), Close when they are not
+   (C05_refusal_short) *)
 Theorem C05_refused_no_envelope cfg c arg a0 more n :
   fields arg = a0 :: more -> (List.length more <= 1)%nat -> parse_uint 32 a0 = POk n ->
   c_from c = false \/ c_rcpts c = [] ->
   handle_bdat cfg c arg
-  = (discard_chunk cfg c n, [reply 502 (5, 5, 1)%Z (bs "Missing RCPT TO command.")]).
+  = (discard_c cfg c n, reply 502 (5, 5, 1)%Z (bs "Missing RCPT TO command.") :: discard_ev cfg c n).
 Proof. exact (bdat_refused_no_envelope cfg c arg a0 more n). Qed.
 Print Assumptions C05_refused_no_envelope.
 
@@ -139,7 +166,7 @@ Theorem C05_refused_bad_last cfg c arg a0 a1 n :
   fields arg = [a0; a1] -> parse_uint 32 a0 = POk n ->
   c_from c = true -> c_rcpts c <> [] -> equal_fold a1 (bs "LAST") = false ->
   handle_bdat cfg c arg
-  = (discard_chunk cfg c n, [reply 501 (5, 5, 4)%Z (bs "Unknown BDAT argument")]).
+  = (discard_c cfg c n, reply 501 (5, 5, 4)%Z (bs "Unknown BDAT argument") :: discard_ev cfg c n).
 Proof. exact (bdat_refused_bad_last cfg c arg a0 a1 n). Qed.
 Print Assumptions C05_refused_bad_last.
 
@@ -148,10 +175,28 @@ Theorem C05_refused_over_limit cfg c arg a0 more n last :
   c_from c = true -> c_rcpts c <> [] -> bdat_last_ok more = Some last ->
   cf_max_bytes cfg <> 0%Z -> (cf_max_bytes cfg < c_received c + Z.of_N n)%Z ->
   handle_bdat cfg c arg
-  = (reset_c (discard_chunk cfg c n),
-     [reply 552 (5, 3, 4)%Z (bs "Max message size exceeded")] ++ reset_ev c).
+  = (reset_c (discard_c cfg c n),
+     [reply 552 (5, 3, 4)%Z (bs "Max message size exceeded")]
+     ++ discard_ev cfg c n ++ reset_ev (discard_c cfg c n)).
 Proof. exact (bdat_refused_over_limit cfg c arg a0 more n last). Qed.
 Print Assumptions C05_refused_over_limit.
+
+Theorem C05_refusal_complete cfg c n payload rest :
+  t_closed (c_t c) = false -> tstream (c_t c) = payload ++ rest -> blen payload = n ->
+  exists t',
+    discard_c cfg c n = upd_t c t' /\ discard_ev cfg c n = [] /\
+    tstream t' = rest /\ t_limit t' = cf_max_line cfg /\ t_closed t' = false /\
+    tterm t' = tterm (c_t c).
+Proof. exact (bdat_refusal_complete cfg c n payload rest). Qed.
+Print Assumptions C05_refusal_complete.
+
+Theorem C05_refusal_short cfg c n :
+  t_closed (c_t c) = false -> blen (tstream (c_t c)) < n ->
+  c_closed (discard_c cfg c n) = true /\ t_closed (c_t (discard_c cfg c n)) = true /\
+  c_session (discard_c cfg c n) = false /\ c_bdat (discard_c cfg c n) = None /\
+  discard_ev cfg c n = close_ev c.
+Proof. exact (bdat_refusal_short cfg c n). Qed.
+Print Assumptions C05_refusal_short.
 
 (* handle_bdat, branch by branch, in closed form *)
 Theorem C05_cases (cfg : config) (c : conn) (arg : bytes) :
@@ -159,14 +204,17 @@ Theorem C05_cases (cfg : config) (c : conn) (arg : bytes) :
   | BvSyntax => exists w, handle_bdat cfg c arg = (c, [EWire w])
   | BvNoEnvelope size =>
       handle_bdat cfg c arg
-      = (discard_chunk cfg c size, [reply 502 (5, 5, 1)%Z (bs "Missing RCPT TO command.")])
+      = (discard_c cfg c size,
+         reply 502 (5, 5, 1)%Z (bs "Missing RCPT TO command.") :: discard_ev cfg c size)
   | BvBadLast size =>
       handle_bdat cfg c arg
-      = (discard_chunk cfg c size, [reply 501 (5, 5, 4)%Z (bs "Unknown BDAT argument")])
+      = (discard_c cfg c size,
+         reply 501 (5, 5, 4)%Z (bs "Unknown BDAT argument") :: discard_ev cfg c size)
   | BvOverLimit size =>
       handle_bdat cfg c arg
-      = (reset_c (discard_chunk cfg c size),
-         [reply 552 (5, 3, 4)%Z (bs "Max message size exceeded")] ++ reset_ev c)
+      = (reset_c (discard_c cfg c size),
+         [reply 552 (5, 3, 4)%Z (bs "Max message size exceeded")]
+         ++ discard_ev cfg c size ++ reset_ev (discard_c cfg c size))
   | BvNilSession => handle_bdat cfg c arg = (c, [EPanic])
   | BvAccept size last =>
       handle_bdat cfg c arg
@@ -297,7 +345,102 @@ Theorem C05_failed_read_consumed cfg c arg n last :
 Proof. exact (bdat_failed_read_consumed cfg c arg n last). Qed.
 Print Assumptions C05_failed_read_consumed.
 
+(* ---- a chunk whose declared octets cannot all be read closes the connection (F30) ---- *)
+
+(* one failure, and the octets behind it complete the chunk (SMTP mode or a
+   non-LAST chunk, backend still reading): skipped, commands resume behind them *)
+Theorem C05_cut_resume cfg c p pan got arg n last p2 rest' :
+  transfer_at cfg c p pan got -> dp_stop p = None ->
+  bdat_arg arg n last -> within_limit cfg c n -> last && cf_lmtp cfg = false ->
+  t_closed (c_t c) = false -> blen (tstream (c_t c)) < n ->
+  raws_bytes (raws_after (t_raw (c_t c))) = p2 ++ rest' ->
+  blen p2 = n - blen (tstream (c_t c)) ->
+  tstream (c_t (fst (handle_bdat cfg c arg))) = rest' /\
+  t_limit (c_t (fst (handle_bdat cfg c arg))) = cf_max_line cfg /\
+  c_closed (fst (handle_bdat cfg c arg)) = c_closed c.
+Proof. exact (bdat_chunk_cut_resume cfg c p pan got arg n last p2 rest'). Qed.
+Print Assumptions C05_cut_resume.
+
+(* ... they do not: closed *)
+Theorem C05_cut_again cfg c p pan got arg n last :
+  transfer_at cfg c p pan got -> dp_stop p = None ->
+  bdat_arg arg n last -> within_limit cfg c n -> last && cf_lmtp cfg = false ->
+  t_closed (c_t c) = false -> blen (tstream (c_t c)) < n ->
+  blen (raws_bytes (raws_after (t_raw (c_t c)))) < n - blen (tstream (c_t c)) ->
+  t_buf (c_t (fst (handle_bdat cfg c arg))) = [] /\
+  t_raw (c_t (fst (handle_bdat cfg c arg))) = raws_after (raws_after (t_raw (c_t c))) /\
+  c_closed (fst (handle_bdat cfg c arg)) = true /\
+  t_closed (c_t (fst (handle_bdat cfg c arg))) = true /\
+  c_session (fst (handle_bdat cfg c arg)) = false.
+Proof. exact (bdat_chunk_cut_again cfg c p pan got arg n last). Qed.
+Print Assumptions C05_cut_again.
+
+(* every accepted chunk: SMTP and LMTP, LAST or not, ANY backend plan (reading
+   on, stopped, gone, panicking) *)
+Theorem C05_incomplete_chunk_closes cfg c arg n last :
+  bdat_classify cfg c arg = BvAccept n last ->
+  t_closed (c_t c) = false -> blen (tstream (c_t c)) < n ->
+  blen (raws_bytes (raws_after (t_raw (c_t c)))) < n - blen (tstream (c_t c)) ->
+  let c' := fst (handle_bdat cfg c arg) in
+  c_closed c' = true /\ t_closed (c_t c') = true /\ c_session c' = false /\ c_bdat c' = None.
+Proof. exact (bdat_incomplete_chunk_closes cfg c arg n last). Qed.
+Print Assumptions C05_incomplete_chunk_closes.
+
+(* every refused chunk *)
+Theorem C05_incomplete_refused_closes cfg c arg n :
+  match bdat_classify cfg c arg with
+  | BvNoEnvelope s | BvBadLast s | BvOverLimit s => s = n
+  | _ => False
+  end ->
+  t_closed (c_t c) = false -> blen (tstream (c_t c)) < n ->
+  let c' := fst (handle_bdat cfg c arg) in
+  c_closed c' = true /\ t_closed (c_t c') = true /\ c_session c' = false /\ c_bdat c' = None.
+Proof. exact (bdat_incomplete_refused_closes cfg c arg n). Qed.
+Print Assumptions C05_incomplete_refused_closes.
+
+(* ... and then the command loop does nothing but the deferred Close, whatever
+   is buffered or still to come on the connection *)
+Theorem C05_closed_loop_stops cfg c arg n :
+  (exists last, bdat_classify cfg c arg = BvAccept n last /\
+                blen (raws_bytes (raws_after (t_raw (c_t c)))) < n - blen (tstream (c_t c)))
+  \/ match bdat_classify cfg c arg with
+     | BvNoEnvelope s | BvBadLast s | BvOverLimit s => s = n
+     | _ => False
+     end ->
+  t_closed (c_t c) = false -> blen (tstream (c_t c)) < n ->
+  let c' := fst (handle_bdat cfg c arg) in
+  c_closed c' = true /\ t_closed (c_t c') = true /\
+  forall fuel, serve_loop (S fuel) cfg c' = [EClose].
+Proof. exact (bdat_closed_loop_stops cfg c arg n). Qed.
+Print Assumptions C05_closed_loop_stops.
+
 (* ---- non-vacuity ---- *)
+
+(* F30: BDAT 30 with 12 octets, then the read deadline expires.  It stays
+   expired (two failures in a row): accepted chunk 554 and closed, the bait
+   line behind it never executed; refused chunk (no MAIL): 502 and closed.
+   With ONE failure the accepted chunk's remaining 18 octets are skipped and
+   NOOP, QUIT are executed. *)
+Example C05_witness_incomplete_chunk :
+  let chunk1 := bs "first part" ++ crlf in
+  let chunk2 := bs "MAIL FROM:<x@y>" ++ crlf ++ bs "!" in
+  let tail := xln "NOOP" ++ xln "QUIT" in
+  let run pre fails := serve 40 (ex_cfg 0 2000) ex_be
+                         [[xraw (pre ++ xln "BDAT 30" ++ chunk1)] ++ fails ++ [xraw (chunk2 ++ tail)]] in
+  let sticky := run f30_prelude [RFail TTimeout; RFail TTimeout] in
+  let once := run f30_prelude [RFail TTimeout] in
+  let refused := run (xln "EHLO x") [RFail TTimeout] in
+  blen chunk1 = 12%N /\ blen chunk2 = 18%N /\
+  wire_codes sticky = map bs ["220"; "250"; "250"; "250"; "554"]%string /\
+  has_mail "x@y" sticky = false /\
+  skipn (List.length sticky - 3) sticky = [ELogout; EClose; EClose] /\
+  wire_codes once = map bs ["220"; "250"; "250"; "250"; "554"; "250"; "221"]%string /\
+  has_mail "x@y" once = false /\
+  cmd_lines once = [bs "EHLO x"; bs "MAIL FROM:<a@b>"; bs "RCPT TO:<c@d>"; bs "BDAT 30"; bs "NOOP"; bs "QUIT"] /\
+  wire_codes refused = map bs ["220"; "250"; "502"]%string /\
+  has_mail "x@y" refused = false /\
+  cmd_lines refused = [bs "EHLO x"; bs "BDAT 30"].
+Proof. exact f30_bdat_witness. Qed.
 
 (* A two-chunk transfer (7 octets holding CRLF.CRLF, then NUL, 0xFF and a
    dot; second command in lower case) through the whole server loop on three
